@@ -102,7 +102,7 @@ def op_cli(task):
     for colors in ([], ["--no-colors"]):
         for fmt in ("humanized", "json"):
             for dbg in ([], ["-d"], ["-dd"]):
-                for extra in ([], ["-o"], ["-R", "Whatever"]):
+                for extra in ([], ["-o"], ["-R", "Whatever"], ["-R", "NoCheckDefineX"], ["-R", "checkdefine"]):
                     optsets.append((colors + ["-f", fmt] + dbg + extra, fmt))
     if not thorough:
         optsets = [optsets[0]] + rnd.sample(optsets[1:], 7)
